@@ -405,6 +405,14 @@ def run_case(case):
             rows.append(r)
         modes.append(mode)
         cfg['dumps'].append({'mode': mode, 'rows': len(rows)})
+        if phase == 'run' and di > 0 and not prebuilt and boot.rng(case['seed'], 'C20', 'dbgone', case['idx'], di).random() < 0.08:
+            # the database file is gone when this dump starts (moved away / a fresh deployment): the same URL names a new,
+            # empty database
+            if os.path.exists(dbfile):
+                os.remove(dbfile)
+            model, model2 = [], []
+            cfg['dumps'][-1]['database_file_removed_before'] = True
+            cov['config']['database_file_removed_between_dumps'] = 1
         # ---- model ---------------------------------------------------------------------------
         exp_flags = []
         if mode == 'rewrite':
@@ -491,11 +499,12 @@ def run_case(case):
             exp_flags = exp_flags[:2]
             if two_tables:
                 rows2, bystander = rows2[:2], bystander[:2]
-        # engine cleanup (file handles)
-        try:
-            step.engine.dispose()
-        except Exception:
-            pass
+        # engine cleanup (file handles) - not always: a caller does not dispose of anything either
+        if boot.rng(case['seed'], 'C20', 'dispose', case['idx']).random() < 0.6:
+            try:
+                step.engine.dispose()
+            except Exception:
+                pass
         if not out.ok:
             add('dump_failed', 'dump %d (%s, %d rows) failed: %s' % (di, mode, len(rows), out.errstr()),
                 'dump_failed/%s' % mode)
